@@ -1,5 +1,6 @@
 import CCVerif.Model.GraphSpec
 import CCVerif.Lemmas.GraphA
+import CCVerif.Lemmas.GraphDFS
 /-!
 # C14 — dependency-graph queries are exact for every graph and update history
 
@@ -46,7 +47,7 @@ def isReachableFrom_statement : Prop :=
     (isReachableFrom (run ops) d s = true ↔ ReachPlus (edges (run ops)) s d)
 
 def hasLoop_statement : Prop :=
-  ∀ ops : List Op, WfOps ops → hasLoop (run ops) = true ↔ Cyclic (edges (run ops))
+  ∀ ops : List Op, WfOps ops → (hasLoop (run ops) = true ↔ Cyclic (edges (run ops)))
 
 def topologicalOrder_statement : Prop :=
   ∀ ops : List Op, WfOps ops →
@@ -150,5 +151,97 @@ theorem loopGroups_counterexample :
 
 /-- the repaired algorithm on the same graph -/
 theorem loopGroups_repaired_example : getAllLoopsItems g132 = [[1, 2]] := by decide
+
+/-! ## the three depth-first searches (`HasLoop`, `TopologicalOrder`, `GetAllLoopsItems`)
+
+Per-graph form: for EVERY graph `g` that satisfies the representation invariant `Inv g`
+(`Lemmas/GraphInv.lean`; every history yields such a graph — proved separately), not only for
+graphs of the form `run ops`. Proofs in `Lemmas/GraphDFS.lean`; the fuel `dfsFuel g` of the model's
+loops is shown to suffice there. -/
+
+/-- `HasLoop` answers `true` exactly when the represented digraph has a cycle. -/
+theorem hasLoop_spec (g : G) (h : Inv g) : hasLoop g = true ↔ Cyclic (edges g) :=
+  DFS.hasLoop_spec g h
+
+/-- `TopologicalOrder` lists every live uid exactly once, and in an acyclic graph every edge
+`(a, b)` has `a` before `b`. -/
+theorem topologicalOrder_spec (g : G) (h : Inv g) :
+    (topologicalOrder g).Perm (liveUids g) ∧
+    (¬ Cyclic (edges g) → ∀ a b, (a, b) ∈ edges g →
+      (topologicalOrder g).idxOf a < (topologicalOrder g).idxOf b) :=
+  DFS.topologicalOrder_spec g h
+
+/-- `GetAllLoopsItems` (after the `fix:` commit: Kosaraju's second pass) returns exactly the
+strongly connected components that contain a cycle, each once, without repetitions. -/
+theorem loopGroups_spec (g : G) (h : Inv g) :
+    (∀ grp ∈ getAllLoopsItems g, ∀ a ∈ grp, ∀ b, (b ∈ grp ↔ SameLoop (edges g) a b)) ∧
+    (∀ a, SameLoop (edges g) a a → ∃ grp ∈ getAllLoopsItems g, a ∈ grp) ∧
+    (getAllLoopsItems g).Pairwise (fun g1 g2 => ∀ a ∈ g1, a ∉ g2) ∧
+    (∀ grp ∈ getAllLoopsItems g, grp ≠ [] ∧ grp.Nodup) :=
+  DFS.loopGroups_spec g h
+
+/-- The auxiliary order is a duplicate-free enumeration of exactly the live slots. -/
+theorem internalOrder_spec (g : G) (h : Inv g) :
+    (internalOrder g).Nodup ∧ ∀ i, i ∈ internalOrder g ↔ i < g.length ∧ (vx g i).valid = true :=
+  ⟨internalOrder_nodup h, mem_internalOrder h⟩
+
+/-! ### non-vacuity: concrete graphs satisfying `Inv` -/
+
+/-- acyclic, with an erased vertex (tombstone) and an isolated vertex:
+edges 1→2, 1→3, 3→2, 3→5; vertex 4 erased, vertex 6 isolated -/
+def gDag : G := run [.addConnection 1 2, .addConnection 1 3, .addConnection 4 1, .addConnection 3 2,
+  .setItemInputs 5 [3], .eraseItem 4, .addItem 6]
+
+/-- two loops {1,2} and {4,5,6}, a self-loop 7, and the acyclic vertices 3, 8 -/
+def gLoops : G := run [.addConnection 1 3, .addConnection 1 2, .addConnection 2 1,
+  .addConnection 3 4, .addConnection 4 5, .addConnection 5 6, .addConnection 6 4,
+  .addConnection 7 7, .addConnection 6 8]
+
+theorem inv_g132 : Inv g132 := inv_of_invD (by decide)
+theorem inv_gDag : Inv gDag := inv_of_invD (by decide)
+theorem inv_gLoops : Inv gLoops := inv_of_invD (by decide)
+
+-- `hasLoop_spec`, both answers
+example : hasLoop g132 = true ∧ Cyclic (edges g132) :=
+  ⟨by decide, (hasLoop_spec g132 inv_g132).1 (by decide)⟩
+example : hasLoop gDag = false ∧ ¬ Cyclic (edges gDag) :=
+  ⟨by decide, fun hc => absurd ((hasLoop_spec gDag inv_gDag).2 hc) (by decide)⟩
+
+-- `topologicalOrder_spec`: the acyclic hypothesis is satisfiable and the order is non-trivial
+example : topologicalOrder gDag = [6, 1, 3, 2, 5] ∧ liveUids gDag = [1, 2, 3, 5, 6] ∧
+    edges gDag = [(1, 2), (1, 3), (3, 2), (3, 5)] ∧ ¬ Cyclic (edges gDag) :=
+  ⟨by decide, by decide, by decide,
+    fun hc => absurd ((hasLoop_spec gDag inv_gDag).2 hc) (by decide)⟩
+
+-- `loopGroups_spec`: several groups, a self-loop group, and vertices in no group
+example : getAllLoopsItems gLoops = [[7], [1, 2], [4, 6, 5]] ∧
+    SameLoop (edges gLoops) 4 5 ∧ ¬ SameLoop (edges gLoops) 3 3 := by
+  obtain ⟨h1, h2, _, _⟩ := loopGroups_spec gLoops inv_gLoops
+  have hg : getAllLoopsItems gLoops = [[7], [1, 2], [4, 6, 5]] := by decide
+  refine ⟨hg, ?_, ?_⟩
+  · exact (h1 [4, 6, 5] (by rw [hg]; simp) 4 (by simp) 5).1 (by simp)
+  · intro h33
+    obtain ⟨grp, hgrp, h3⟩ := h2 3 h33
+    rw [hg] at hgrp
+    simp only [List.mem_cons, List.not_mem_nil, or_false] at hgrp
+    rcases hgrp with rfl | rfl | rfl <;> simp at h3
+
+/-! ### the history statements
+
+Every well-formed history yields a graph satisfying `Inv` (`inv_of_history`), so the three
+per-graph theorems give the statements over all histories. -/
+
+/-- **hasLoop_history**: after any history `HasLoop` answers exactly "the digraph has a cycle". -/
+theorem hasLoop_history : hasLoop_statement :=
+  fun ops hw => hasLoop_spec (run ops) (inv_of_history ops hw)
+
+/-- **topologicalOrder_history** -/
+theorem topologicalOrder_history : topologicalOrder_statement :=
+  fun ops hw => topologicalOrder_spec (run ops) (inv_of_history ops hw)
+
+/-- **loopGroups_history**: after any history the loop groups are exactly the strongly connected
+components that contain a cycle. -/
+theorem loopGroups_history : loopGroups_statement :=
+  fun ops hw => loopGroups_spec (run ops) (inv_of_history ops hw)
 
 end CCVerif.Graph
